@@ -38,6 +38,12 @@ fn api_bytes(r: &Ref, s: Suite, class: &str) -> Option<Vec<u8>> {
         "empty" => Some(vec![]),
         "custom" => Some(b"ACME_WALLET_V1_".to_vec()),
         "custom2" => Some(b"ACME_WALLET_V1_X".to_vec()),
+        // long api ids that agree on a long prefix (the DSTs built from them exceed 255 octets)
+        "long236" => Some(vec![b'a'; 236]),
+        "long237b" => Some([vec![b'a'; 236], vec![b'b']].concat()),
+        "long237c" => Some([vec![b'a'; 236], vec![b'c']].concat()),
+        "long300x" => Some([vec![b'a'; 299], vec![b'x']].concat()),
+        "long300y" => Some([vec![b'a'; 299], vec![b'y']].concat()),
         _ => panic!("api class {class}"),
     }
 }
